@@ -266,6 +266,38 @@ class Impl:
             with self.ordered(ordered):
                 leaves, spec = optree.tree_flatten(t, **kw)
             return [[A('leaves'), *map(u.enc_obj, leaves)], u.enc_spec(spec)]
+        if op == 'faultflatten':
+            import universe
+            k = None if s[1] == 'N' else int(s[1])
+            kw, ordered = self.cfg(s[2])
+            t = u.obj(s[3])
+            counter = [0]
+
+            def hook(kind, obj):
+                if kind.startswith('key-'):
+                    return          # the Lean callback program counts is_leaf and flatten functions only
+                i = counter[0]
+                counter[0] += 1
+                if k is not None and i == k:
+                    raise UserExc(99)
+            pred = kw['is_leaf']
+            if pred is not None:
+                def wrapped(x):
+                    hook('pred', x)
+                    return pred(x)
+                kw['is_leaf'] = wrapped
+            universe.CALLBACK_HOOK = hook
+            try:
+                with self.ordered(ordered):
+                    try:
+                        leaves, spec = optree.tree_flatten(t, **kw)
+                    except RecursionError as e:
+                        return [[A('calls'), counter[0]], [A('err'), A(err_name(e))]]
+                    except Exception as e:  # noqa: BLE001
+                        return [[A('calls'), counter[0]], [A('err'), A(err_name(e))]]
+            finally:
+                universe.CALLBACK_HOOK = None
+            return [[A('calls'), counter[0]], [A('leaves'), *map(u.enc_obj, leaves)], u.enc_spec(spec)]
         if op == 'flatten_with_path':
             kw, ordered = self.cfg(s[1])
             t = u.obj(s[2])
